@@ -172,6 +172,8 @@ func (s *PredicatePartitionStrategy) AddPartition(partition *PredicatePartition)
 	if exists {
 		return false
 	}
+	// compute the new partition's share of the current limit
+	partition.UpdateLimit(s.limit)
 	s.partitions = append(s.partitions, partition)
 	return true
 }
